@@ -81,6 +81,19 @@ def oracle_reference(case, rec):
         got2 = mi(Xa, Ya)
         if not math.isfinite(got2) or abs(got2 - iref) > t:
             raise Violation(f'mi(X,Y)={got2!r} but plug-in MI={iref!r} (tol {t:.2e}), n={n} (arguments in swapped order)')
+    if 2 <= n <= 20000 and 'lagged' not in case:
+        # the caller refills the SAME array object in place (a preallocated batch buffer) and scores it again: the new contents count
+        keep = Ya.copy()
+        # other rows AND another value histogram: reversed, and every third row recoded to a fresh code
+        Ya[:] = np.where(np.arange(n) % 3 == 0, int(keep.max()) + 1, keep[::-1])
+        if not np.array_equal(Ya, keep):
+            rec.cls('argument-array-refilled-in-place')
+            iref2 = rm.mi_ref(Ya.tolist(), X)
+            got3 = mi(Ya, Xa)
+            if not math.isfinite(got3) or abs(got3 - iref2) > t:
+                raise Violation(f'after refilling the first argument array in place (rows reversed, every third row recoded) mi={got3!r}, plug-in MI of the new '
+                                f'contents={iref2!r}; the previous contents scored {got!r} (n={n})', kind='C01/repeat-call')
+        Ya[:] = keep
     if n <= 20000:
         # the same objects scored again (a caller reusing its arrays): still the plug-in MI of the vectors the caller passed
         again = mi(Ya, Xa)
